@@ -34,13 +34,20 @@ REG.contract('C01', AP, 'ArrayHolder.op_index', params={'self': ArrH, 'other': I
 NodeS = Struct('AndNode', 'mesonbuild.mparser:AndNode', left=Obj, right=Obj)
 BaseS = Struct('InterpreterBase', 'mesonbuild.interpreterbase.interpreterbase:InterpreterBase')
 EVS = "[e for e in __trace__ if e[0] == 'evaluate_statement']"
+HOL = "[e for e in __trace__ if e[0] == '_holderify']"
 ME = {'evaluate_statement': {'returns': Opt(Obj), 'raises': []}, '_holderify': {'returns': Obj, 'raises': []}}
 for fn, decides in (('evaluate_andstatement', 'not'), ('evaluate_orstatement', '')):
     cls = 'AndNode' if 'and' in fn else 'OrNode'
     REG.contract('C01', IB, f'InterpreterBase.{fn}', params={'self': BaseS, 'cur': Struct(cls, f'mesonbuild.mparser:{cls}', left=Obj, right=Obj)},
                  ensures=[f"{EVS}[0][1] is cur.left",
                           f"(len({EVS}) == 2) == (not isinst({EVS}[0][-1], Disabler) and not ({decides} obj_operator_call({EVS}[0][-1])))",
-                          f"({EVS}[1][1] is cur.right) if len({EVS}) == 2 else len({EVS}) == 1"],
+                          f"({EVS}[1][1] is cur.right) if len({EVS}) == 2 else len({EVS}) == 1",
+                          # the value: a disabler operand is passed through; otherwise the result is ALWAYS the (holderified) value
+                          # of the BOOL operator of the deciding operand — never an operand itself (no implicit conversion)
+                          f"(result is {EVS}[0][-1] and len({HOL}) == 0) if isinst({EVS}[0][-1], Disabler) else True",
+                          f"((result is {EVS}[1][-1] and len({HOL}) == 0) if isinst({EVS}[1][-1], Disabler) else True) if len({EVS}) == 2 else True",
+                          f"(len({HOL}) == 1 and result is {HOL}[0][-1] and {HOL}[0][1] == obj_operator_call({EVS}[0][-1])) if (len({EVS}) == 1 and not isinst({EVS}[0][-1], Disabler)) else True",
+                          f"((len({HOL}) == 1 and result is {HOL}[0][-1] and {HOL}[0][1] == obj_operator_call({EVS}[1][-1])) if not isinst({EVS}[1][-1], Disabler) else True) if len({EVS}) == 2 else True"],
                  raises={'MesonException': f"{EVS}[0][-1] is None or (len({EVS}) == 2 and {EVS}[1][-1] is None)" if False else 'True'}, exact_raises=False,
-                 method_effects=ME, opaque={'operator_call': ([], Bool)}, floor=5,
+                 method_effects=ME, opaque={'operator_call': ([], Bool)}, floor=9,
                  note='the left operand is always evaluated first and once; the right operand is evaluated iff the left one is ' + ('true' if 'and' in fn else 'false') + ' (and is not a disabler)')
